@@ -154,6 +154,7 @@ func c04Run(c *Ctx) {
 	// pointer level: the real object graph against the heap model's sharing map (heap_share.go)
 	heapMergeGen(c, g, second, opt, c.N(900))
 	c04RunKeys(c, opt) // c04_keys.go: the same three routes over keys that are arbitrary strings
+	c04flRun(c)        // c04_fluent.go: fluent.ConfigHelper histories (Add / Load / Mutate / Result / Save)
 	if c.Thorough() && !c.searchMode {
 		all := c04EnumDocs()
 		c.Note("exhaustive scope: %d root containers of size <= 4 over keys {a,b}; all ordered pairs x both strategies", len(all))
@@ -363,6 +364,10 @@ func c04YamlRT(v any) (any, error) {
 }
 
 func c04Eval(c *Ctx, kind string, raw []byte) {
+	if kind == "fluent" {
+		c04flEval(c, raw) // c04_fluent.go: ConfigHelper as a state machine
+		return
+	}
 	switch kind {
 	case "heap-merge":
 		heapMergeEval(c, raw)
